@@ -656,6 +656,8 @@ class Executor2(Executor):
                         head.assume(self.bits.wf(head.env[nm].t))
                 elif v.kind == "ref":
                     head.env[nm] = SV("ref", z3.Const("%s!%d" % (nm, self._nf()), Ref), cls=v.cls)
+                elif v.kind == "listiter" and hasattr(self, "fresh_listiter"):
+                    head.env[nm] = self.fresh_listiter(head, nm, v)
                 elif v.kind == "none":
                     ty = self.cur.locals.get(nm)
                     if self.lenient:
@@ -810,6 +812,8 @@ class Executor2(Executor):
                         if key.endswith("." + n.value.attr) and getattr(self.schema[key], "default", None) is not None:
                             keys.add(key)
                 elif isinstance(n, ast.Call):
+                    if isinstance(n.func, ast.Name) and n.func.id == "next" and n.args and isinstance(n.args[0], ast.Name):
+                        names.add(n.args[0].id)   # next(it) advances the iterator the name holds
                     keys |= self.call_modifies(n)
                     if isinstance(n.func, ast.Attribute) and isinstance(n.func.value, ast.Attribute):
                         # obj.field.method(...): a mutating method of a modelled container
